@@ -1,0 +1,41 @@
+# Copyright 2025 The PyGlove Authors
+#
+# Licensed under the Apache License, Version 2.0 (the "License");
+# you may not use this file except in compliance with the License.
+# You may obtain a copy of the License at
+#
+#      http://www.apache.org/licenses/LICENSE-2.0
+#
+# Unless required by applicable law or agreed to in writing, software
+# distributed under the License is distributed on an "AS IS" BASIS,
+# WITHOUT WARRANTIES OR CONDITIONS OF ANY KIND, either express or implied.
+# See the License for the specific language governing permissions and
+# limitations under the License.
+"""Verification hooks (inert unless explicitly enabled).
+
+`emit(event, **fields)` marks a linearisation point of the concurrent sampling
+code (the statement just executed).  It is a no-op unless BOTH the environment
+variable ``PYGLOVE_VERIF`` is ``1`` when this module is imported AND a tracer has
+been installed with `install`.  Only scalars (ids, counts, flags) are passed.
+Nothing in PyGlove reads anything back from a tracer.
+"""
+
+import os
+from typing import Any, Callable, Optional
+
+ENABLED = os.environ.get('PYGLOVE_VERIF') == '1'
+
+_tracer: Optional[Callable[[str, dict], Any]] = None
+
+
+def install(tracer: Optional[Callable[[str, dict], Any]]) -> None:
+  """Installs (or with None removes) the process-wide tracer."""
+  global _tracer
+  _tracer = tracer if ENABLED else None
+
+
+def emit(event: str, **fields) -> None:
+  """Reports a linearisation point to the installed tracer, if any."""
+  tracer = _tracer
+  if tracer is not None:
+    tracer(event, fields)
